@@ -220,7 +220,8 @@ class Ctx:
         self._nrep += 1
         rdir = os.path.join(VERIF, "evidence", "replay")
         os.makedirs(rdir, exist_ok=True)
-        path = os.path.join(rdir, "%s-%d.json" % (self.prop, self._nrep))
+        # a --replay run must not overwrite the replay files of the last full run
+        path = os.path.join(rdir, "%s-%s%d.json" % (self.prop, "re" if self.replay else "", self._nrep))
         with open(path, "w") as fh:
             json.dump({"property": self.prop, "message": message, "features": features,
                        "replay": replay}, fh, indent=1, sort_keys=True, default=str)
